@@ -3,14 +3,16 @@
 import json, os
 V = os.path.dirname(os.path.dirname(os.path.abspath(__file__)))
 props = [json.loads(l) for l in open(os.path.join(V, "properties.jsonl"))]
-CLAIMED = {
- "C19": dict(tech="Coq proof over a Gallina model of PackURI/posixpath + extracted-model correspondence (bounded-exhaustive part names) + direct oracle",
-   text="15 theorems (C19_*) closed under the global context state the round trip for all well-formed part names, the accessors, rejection, and agreement with RFC 3986 dot-segment removal; the model is tied to src/pptx/opc/packuri.py by running the extracted model and the implementation on every part name to depth 3/4 over a 16-segment alphabet and on random references.",
-   note="posixpath is re-implemented in the model (transcribed, exercised by the correspondence); cwd-dependent inputs excluded; RFC statement excludes references ending in '.', '..', '/' or containing '//'.", ref="6/C19"),
- "C10": dict(tech="Coq proof by reflection: verified decision procedure (decl_ok) evaluated by vm_compute on declarations and XSD content models regenerated from /repo each run; grid correspondence of xmlchemy semantics",
-   text="Generic theorems: every schema-accepted child sequence is rank-sorted (lang_sorted) and a declaration accepted by decl_ok inserts in rank order in EVERY schema-accepted context (insert_schema_ordered); instance theorem C10_all_declared over all (class, XSD type, declared child) triples and the literal-successor direct sites re-extracted from the current tree; get_or_add/remove/change_to theorems; the xmlchemy model is tied to the metaclass-generated methods by complete enumeration of the property's context grid on real lxml elements.",
-   note="translator tx_c10/xsdlib trusted to transcribe; xsd:all over-approximated; sites classified template/observed are outside the instance theorem; lxml tree operations modelled on tag lists.", ref="6/C10"),
-}
+import ast
+CLAIMED = {}
+for p in props:
+    f = os.path.join(V, "checks", p["id"].lower() + ".py")
+    if not os.path.exists(f):
+        continue
+    tree = ast.parse(open(f).read())
+    for node in tree.body:
+        if isinstance(node, ast.Assign) and len(node.targets) == 1 and getattr(node.targets[0], "id", None) == "CLAIM":
+            CLAIMED[p["id"]] = ast.literal_eval(node.value)
 checks = []
 for p in props:
     pid = p["id"]
